@@ -5,10 +5,10 @@ import CssVerif.Gen.C18Tables
 
 Hand transcription, statement by statement, of
 
-* `cssutils/helper.py:43-62`        `normalize`
-* `cssutils/css/value.py:535-582`   `DimensionValue.__reUnNumDim`, `DimensionValue._setCssText`
-* `cssutils/serialize.py:1063-1113` `_strip_zeros`, `do_css_Value` (numeric branch)
-* `cssutils/serialize.py:200-305`   `Out.append` / `Out.value` on the path taken by one value item
+* `cssutils/helper.py:41-61`        `_simpleescapes`, `normalize`
+* `cssutils/css/value.py:544-608`   `DimensionValue.__reUnNumDim`, `DimensionValue._setCssText`
+* `cssutils/serialize.py:1057-1109` `_strip_zeros`, `do_css_Value` (numeric branch)
+* `cssutils/serialize.py:188-314`   `Out._remove_last_if_S`, `Out.append`, `Out.value` on the path of a value item
 
 Strings are lists of code points. A number is kept as the **digit strings** of its literal
 (`ip`, `fp`), i.e. as an exact decimal; the Python `int`/`float` operations used by the serializer
@@ -34,10 +34,10 @@ def cDot : Nat := 0x2E
 def cZero : Nat := 0x30
 def cBackslash : Nat := 0x5C
 
-/-! ## `helper.normalize` (`helper.py:43-62`) -/
+/-! ## `helper.normalize` (`helper.py:41-61`) -/
 
 /-- `_simpleescapes(removeescape, x)`: every non-overlapping `\\[^0-9a-fA-F]`, scanning from the left,
-loses its backslash (`helper.py:40,56-59`). The negated class also matches a line feed. -/
+loses its backslash (`helper.py:41,55-58`). The negated class also matches a line feed. -/
 def unescSimple : Cps → Cps
   | [] => []
   | [c] => [c]
@@ -50,7 +50,7 @@ def unescSimple : Cps → Cps
 def normalize (x : Cps) : Cps :=
   if x.isEmpty then x else (unescSimple x).map lowerAscii
 
-/-! ## `__reUnNumDim = ^([+-]?)([0-9]*\.[0-9]+|[0-9]+)(.*)$` with `re.S` (`value.py:539-541`) -/
+/-! ## `__reUnNumDim = ^([+-]?)([0-9]*\.[0-9]+|[0-9]+)(.*)$` with `re.S` (`value.py:544-546`) -/
 
 /-- group 1, `[+-]?` -/
 def signOf (s : Cps) : Cps :=
@@ -78,7 +78,7 @@ With `re.S` the third group takes everything that is left (`$` then matches at t
 def splitNum (s : Cps) : Option (Cps × Cps × Cps) :=
   splitAfterSign (signOf s) (s.drop (signOf s).length)
 
-/-! ## `DimensionValue` after `_setCssText` (`value.py:552-582`) -/
+/-! ## `DimensionValue` after `_setCssText` (`value.py:563-608`) -/
 
 inductive NumType where
   | dimension | number | percentage
@@ -96,7 +96,7 @@ deriving DecidableEq, Repr, Inhabited
 
 inductive Err where
   | indexError | valueError
-  | tooLarge        -- not an exception: logged error 'Number too large', `wellformed = False` (`value.py:576-582`)
+  | tooLarge        -- not an exception: logged error 'Number too large', `wellformed = False` (`value.py:578-595`)
 deriving DecidableEq, Repr, Inhabited
 
 /-- value of a digit string -/
@@ -106,8 +106,8 @@ def natOfDigits (ds : Cps) : Nat := ds.foldl (fun a c => a * 10 + (c - cZero)) 0
 the bound is an integer, so only the integer digits matter -/
 def floatOverflows (ip : Cps) : Bool := natOfDigits ip ≥ 2 ^ 1024 - 2 ^ 970
 
-/-- `value.py:569-580`; `tokval` is `item.value` of the first sequence item: the token value, already
-normalised once by `PreDef.dimension`'s `toSeq` for DIMENSION tokens (`prodparser.py:758`). -/
+/-- `value.py:575-605`; `tokval` is `item.value` of the first sequence item: the token value, already
+normalised once by `PreDef.dimension`'s `toSeq` for DIMENSION tokens (`prodparser.py:757-760`). -/
 def parseDim (typ : NumType) (tokval : Cps) : Except Err DimVal :=
   let item := if typ = .dimension then normalize tokval else tokval
   match splitNum (normalize item) with
@@ -175,7 +175,7 @@ def indexOfDot : Cps → Option Nat
   | [] => none
   | c :: t => if c = cDot then some 0 else (indexOfDot t).map (· + 1)
 
-/-- `_strip_zeros` (`serialize.py:1063-1067`) -/
+/-- `_strip_zeros` (`serialize.py:1057-1061`) -/
 def stripZeros (s : Cps) : Except Err Cps :=
   match indexOfDot s with
   | none => .error .valueError
@@ -183,7 +183,7 @@ def stripZeros (s : Cps) : Except Err Cps :=
     let i := k + 2
     .ok (s.take i ++ rstripZeros (s.drop i))
 
-/-- the units after which a zero loses its unit (`serialize.py:1080-1089`): the tuple is regenerated from the
+/-- the units after which a zero loses its unit (`serialize.py:1072-1084`): the tuple is regenerated from the
 source on every run (`Gen/C18Tables.lean`); `Props/C18.lean` pins it to the eight CSS 2.1 length units -/
 def zeroLenUnits : List Cps := Gen.C18.zeroLenUnits
 
@@ -200,7 +200,7 @@ def exactOps : NumOps :=
     strInt := E.strInt, pctF := E.pctF }
 
 /-- the text `sign + val + dim` built by `do_css_Value` for DIMENSION/NUMBER/PERCENTAGE
-(`serialize.py:1076-1109`) -/
+(`serialize.py:1069-1105`) -/
 def numText (ops : NumOps) (p : Prefs) (v : DimVal) : Except Err Cps := do
   let dim0 := v.dim                                   -- `value.dimension or ''`
   let zero := ops.isZero v
@@ -225,7 +225,7 @@ def numText (ops : NumOps) (p : Prefs) (v : DimVal) : Except Err Cps := do
   let sign : Cps := if !zero && v.sign = [cPlus] then [cPlus] else []
   pure (sign ++ r.1 ++ r.2)
 
-/-! ### `helper.string`, `stringvalue`, `uri`, `urivalue` (`helper.py:75-131`) -/
+/-! ### `helper.string`, `stringvalue`, `uri`, `urivalue` (`helper.py:75-132`) -/
 
 def cQuote : Nat := 0x22
 def cApos : Nat := 0x27
@@ -245,7 +245,7 @@ def escStringChars : Cps → Cps
      else if c = cQuote then [cBackslash, cQuote]
      else [c]) ++ escStringChars t
 
-/-- `helper.string(value)` (`helper.py:75-93`) -/
+/-- `helper.string(value)` (`helper.py:75-92`) -/
 def helperString (value : Cps) : Cps :=
   let v := escStringChars value
   -- `if value.endswith('\\'): value = value[:-1] + '\\\\'`
@@ -258,18 +258,18 @@ def unescQuote (q : Nat) : Cps → Cps
   | [c] => [c]
   | c :: d :: t => if c = cBackslash ∧ d = q then q :: unescQuote q t else c :: unescQuote q (d :: t)
 
-/-- `helper.stringvalue(string)` (`helper.py:96-103`); `string[0]` raises `IndexError` on `''` -/
+/-- `helper.stringvalue(string)` (`helper.py:95-102`); `string[0]` raises `IndexError` on `''` -/
 def stringValue (s : Cps) : Except Err Cps :=
   match s with
   | [] => .error .indexError
   | q :: _ => .ok (((unescQuote q s).drop 1).dropLast)
 
-/-- `_match_forbidden_in_uri = re.compile(r""".*?[\(\)\s\;,'"]""", re.U).match` (`helper.py:106`):
+/-- `_match_forbidden_in_uri = re.compile(r""".*?[\(\)\s\;,'"]""", re.U).match` (`helper.py:105`):
 `.` does not match a line feed, but a line feed is itself `\s`, so the lazy prefix never has to cross one -/
 def forbiddenInUri (c : Nat) : Bool :=
   c = 0x28 || c = 0x29 || isSpaceChar c || c = 0x3B || c = 0x2C || c = cApos || c = cQuote
 
-/-- `helper.uri(value)` (`helper.py:109-118`) -/
+/-- `helper.uri(value)` (`helper.py:108-116`) -/
 def helperUri (value : Cps) : Cps :=
   let v := if value.any forbiddenInUri then helperString value else value
   cps "url(" ++ v ++ [0x29]
@@ -282,7 +282,7 @@ def afterParen : Cps → Option Cps
   | [] => none
   | c :: t => if c = 0x28 then some t else afterParen t
 
-/-- `helper.urivalue(uri)` (`helper.py:121-134`) -/
+/-- `helper.urivalue(uri)` (`helper.py:119-132`) -/
 def uriValue (u : Cps) : Except Err Cps :=
   -- `find` returns -1 when there is no `(`: the slice is then `uri[0:-1]`
   let inner := strip (match afterParen u with | some t => t.dropLast | none => u.dropLast)
@@ -291,7 +291,7 @@ def uriValue (u : Cps) : Except Err Cps :=
   | q :: _ =>
     if (q = cApos ∨ q = cQuote) ∧ inner.getLast? = some q then stringValue inner else .ok inner
 
-/-! ### `_hash` (`serialize.py:385-397`) -/
+/-! ### `_hash` (`serialize.py:378-390`) -/
 
 /-- `val[i]`; `none` = IndexError (not reachable: guarded by `len(val) == 7`) -/
 def hashShort (p : Prefs) (val : Cps) : Cps :=
@@ -300,7 +300,7 @@ def hashShort (p : Prefs) (val : Cps) : Cps :=
     if p.minimizeColorHash ∧ a = b ∧ c = d ∧ e = f then [0x23, a, c, e] else val
   | _ => val
 
-/-! ### `Out.append` / `Out.value` (`serialize.py:200-305`) -/
+/-! ### `Out.append` / `Out.value` (`serialize.py:200-314`) -/
 
 /-- `type_` values that `Out.append` distinguishes on the paths modelled here -/
 inductive ItemType where
